@@ -109,7 +109,21 @@ class TlsConn:
 
     def _plain_hs(self, d, kind, msgs, ver=None):
         """one plaintext handshake record carrying the given messages"""
-        return self._add(d, kind, R.record(22, ver if ver is not None else self.rec_ver, b"".join(msgs)))
+        body = b"".join(msgs)
+        if kind == "SH" and ver is None:
+            ver = self.shape.get("rec_ver_sh")          # the record-layer version of a ServerHello record need not be the negotiated one (0x0301 echoes are common)
+        v = ver if ver is not None else self.rec_ver
+        cut = self.shape.get("ch_frag")
+        if kind == "CH" and cut and len(body) > 8:      # a large ClientHello (post-quantum key share) fragmented over two records (RFC 8446 5.1)
+            cut = cut if 4 < cut < len(body) else len(body) // 2
+            self._add(d, kind, R.record(22, v, body[:cut]))
+            return self._add(d, "HSc", R.record(22, v, body[cut:]))
+        return self._add(d, kind, R.record(22, v, body))
+
+    def hello_request(self):
+        """TLS <= 1.2: the server sends an (encrypted) HelloRequest in the application phase; the client ignores it (RFC 5246 7.4.1.1). The record
+        consumes cipher state of the server direction like any other record."""
+        return self._enc("s", 22, R.hs_msg(0, b""), "HREQ")
 
     def _group(self, d, msgs, kinds):
         """emit plaintext handshake messages grouped into records according to shape['group']"""
